@@ -411,7 +411,7 @@ def run_shard(spec):
     i = 0
     while i < spec["n"] and not sh.out_of_time():
         i += 1
-        case = gen_case(rng, dict(bytes_defaults=0.0), dict(size_budget=80, big=0.01))
+        case = gen_case(rng, dict(bytes_defaults=0.3, null_ns_inside=0.05, union_default_any=True), dict(size_budget=80, big=0.01))
         if rng.random() < 0.1 and "record" in repr(case["schema"]):
             from ..gen.schema import errorize
             case["schema"] = errorize(case["schema"], rng)
